@@ -46,13 +46,16 @@ ASSUMPTIONS = [
     "declarations: python int / float / str / bool / None atoms, |int| < 2^53, floats of ordinary magnitude (1e-6 .. 1e6); numpy scalars in declarations are not generated",
     "Optimizer.ask draws are observed with filter_duplicated off, or with a real dimension in the space (de-duplication of a purely discrete design changes its law by design - C08)",
     "initial_point_generator='random' (the default); quasi-random designs are outside this property",
+    "ask sequences with de-duplication on (stream ask_sequence): the law of the j-th single ask is the law of Space.rvs restricted to the points not handed out yet "
+    "(theorem C10_filter_keeps_every_fresh_candidate); the shift of a marginal frequency this can cause is bounded by (j-1) sum p^2 / (1 - (j-1) pmax)^2, "
+    "estimated from a reference sample of Space.rvs; spaces with (k-1) pmax > 0.6 are not judged",
 ]
 RULE = ("conversion: random lists of 1-7 declarations (int / float / mixed tuples with and without prior, categorical / ordinal lists, constants, ConfigSpace "
         "objects, malformed ones) x every surrogate name; names chosen so that sorted order differs from declaration order. sampling: valid declaration lists "
         "x path x surrogate family x seed, 4000+ draws per dimension. non-trivial = at least one accepted declaration (conversion) / at least one dimension "
         "with a support or distribution verdict (sampling)")
 
-F_CHECK, F_CONVDECL, F_OKCONV, F_OKSUPPORT, F_SPEC, F_CHI2, F_CONVSPACE, F_VALUES, F_QNORM, F_QCATNORM, F_INACTIVE = range(1001, 1012)
+F_CHECK, F_CONVDECL, F_OKCONV, F_OKSUPPORT, F_SPEC, F_CHI2, F_CONVSPACE, F_VALUES, F_QNORM, F_QCATNORM, F_INACTIVE, F_FILTERDUP = range(1001, 1013)
 CONV_CLAUSE = {0: "conv_unknown", 1: "names", 2: "number_of_dimensions", 3: "name_or_order", 4: "dimension_kind", 5: "bounds", 6: "log_flag", 7: "categories",
                8: "declaration_not_accepted"}
 SUPPORT_CLAUSE = {1: "support_outside_or_wrong_type", 2: "support_value_never_drawn", 3: "lower_end_not_reached", 4: "upper_end_not_reached", 5: "no_draws"}
@@ -988,6 +991,191 @@ def gen_extremes(count):
     return gen
 
 
+# ------------------------------------------------------------------------------------------------------------------ ask sequences (the ask INDEX is a dimension of the check)
+def check_ask_sequence(case):
+    """Many freshly seeded CBOs, each asked ONE configuration k times in its initial random phase (optionally told the result in
+    between), de-duplication left at its default (on).  Support and distribution are judged PER ASK INDEX: the values handed out by
+    the j-th ask of all searches.  Reference law of ask j = the law of Space.rvs (judged against the declarations by the other
+    streams and here) restricted to the points not handed out yet; the shift this restriction can cause is bounded by
+    (j-1) sum p^2 / (1 - (j-1) pmax)^2, computed from a large reference sample of Space.rvs.  A TEST (level other) except for the
+    support clauses, which the extracted oracle decides."""
+    import tempfile
+    from collections import Counter
+    from deephyper.hpo import CBO
+    from deephyper.hpo._problem import convert_to_skopt_space
+
+    decls, sur, k, nseeds = case["decls"], case["surrogate"], case["k"], case["nseeds"]
+    toks = Tokens()
+    m = model()
+    res = dict(ok=True, kind="oracle", clause="", nontrivial=True, sig={}, desc=["surrogate=%s" % sur, "k=%d" % k, "tell=%s" % bool(case.get("tell")), "space=" + case.get("kind", "?")])
+    p, accepted, errors, bad = declare(decls, toks)
+    if len(accepted) != len(decls):
+        return dict(res, ok=False, **bad) if bad else dict(res, ok=False, kind="corr", clause="sampling_case_declaration_rejected", detail=errors)
+    cond = add_structure(p, case)
+    names = list(p.hyperparameter_names)
+    specs = {nm: m.call(F_SPEC, enc_decl(d, toks))[0] for nm, d in decls}
+    rev = {v: kk for kk, v in toks.t.items()}
+
+    def active(nm, r):
+        while nm in cond:
+            par, val = cond[nm]
+            if not (canon(r[par]) == val and isinstance(canon(r[par]), bool) == isinstance(val, bool)):
+                return False
+            nm = par
+        return True
+
+    # reference: the space's own sampler, unfiltered
+    sp = convert_to_skopt_space(p.space, surrogate_model=sur)
+    if sp.config_space is not None:
+        sp.config_space.seed(case["seed"])
+    nref = case.get("nref", 20000)
+    ref = [dict(zip(names, [canon(v) for v in x])) for x in sp.rvs(n_samples=nref, random_state=case["seed"])]
+    pts = Counter(tuple(repr(r[nm]) for nm in names) for r in ref)
+    sum_p2 = sum((c / nref) ** 2 for c in pts.values() if c > 1)
+    pmax = max(pts.values()) / nref if max(pts.values()) > 1 else 0.0
+    if (k - 1) * pmax > 0.6:
+        return dict(res, nontrivial=False, desc=res["desc"] + ["space_too_small"])
+    rows = [[] for _ in range(k)]
+    with tempfile.TemporaryDirectory(prefix="vp_c10_") as d:
+        for sd in range(nseeds):
+            se = CBO(p, _noop_run, surrogate_model=sur, n_initial_points=2 * k + 5, n_points=case["n_points"], random_state=case["seed"] + 1 + sd, log_dir=d, verbose=0)
+            if getattr(se, "_opt", None) is None:
+                se._setup_optimizer()
+            for j in range(k):
+                x = se.ask(1)[0]
+                rows[j].append({kk: canon(v) for kk, v in x.items()})
+                if case.get("tell"):
+                    se.tell([(x, 0.0)])
+
+    def cells_of(nm, spec):
+        """marginal cells of one dimension: the values themselves when few, else quartile cells of the reference sample"""
+        col = [r[nm] for r in ref if active(nm, r)]
+        vals = sorted(set(map(repr, col)))
+        if len(vals) <= 8:
+            return lambda v: repr(v), col
+        srt = sorted(col)
+        cuts = [srt[len(srt) * q // 4] for q in (1, 2, 3)]
+        return lambda v: sum(v >= c for c in cuts), col
+
+    for j in range(k):
+        delta = (j * sum_p2) / (1 - j * pmax) ** 2
+        for nm in names:
+            spec = specs[nm]
+            col = [r[nm] for r in rows[j] if active(nm, r)]
+            if len(col) < 30:
+                continue
+            dsig = dict(ask=j + 1, dim=spec_desc(spec))
+            code = m.call(F_OKSUPPORT, [spec, [enc_atom(v, toks, create=False) for v in col]])
+            if code in (1, 2, 5):  # with a few hundred draws per ask index the end-band clauses (3, 4) are not applicable
+                cl = SUPPORT_CLAUSE[code] + "@ask_index"
+                return dict(res, ok=False, clause=cl, sig=dict(dsig, clause=cl),
+                            detail=dict(name=nm, ask=j + 1, declared=dict(decls)[nm], n=len(col), counts=sorted(Counter(map(repr, col)).items(), key=lambda kv: -kv[1])[:10]))
+            if spec[0] == 2 and len(spec[1]) == 1:
+                continue
+            cell, rcol = cells_of(nm, spec)
+            fr, fj = Counter(map(cell, rcol)), Counter(map(cell, col))
+            band = delta + 6.5 * math.sqrt(0.25 / len(col) + 0.25 / len(rcol))
+            worst = max(((abs(fj.get(c, 0) / len(col) - fr[c] / len(rcol)), c) for c in set(fr) | set(fj)), key=lambda t: t[0])
+            if worst[0] > band:
+                cl = "dist_ask_index"
+                return dict(res, ok=False, clause=cl, sig=dict(dsig, clause=cl),
+                            detail=dict(name=nm, ask=j + 1, declared=dict(decls)[nm], cell=repr(worst[1]), freq_at_this_ask=fj.get(worst[1], 0) / len(col),
+                                        freq_reference=fr[worst[1]] / len(rcol), allowed_difference=band, shift_bound_from_history=delta, n=len(col),
+                                        decided_by="python (statistical test, level other)"))
+    # asks 2..k pooled (sharper)
+    if k > 1:
+        delta = ((k - 1) * sum_p2) / (1 - (k - 1) * pmax) ** 2
+        for nm in names:
+            spec = specs[nm]
+            col = [r[nm] for j in range(1, k) for r in rows[j] if active(nm, r)]
+            if len(col) < 30 or (spec[0] == 2 and len(spec[1]) == 1):
+                continue
+            cell, rcol = cells_of(nm, spec)
+            fr, fj = Counter(map(cell, rcol)), Counter(map(cell, col))
+            band = delta + 6.5 * math.sqrt(0.25 / len(col) + 0.25 / len(rcol))
+            worst = max(((abs(fj.get(c, 0) / len(col) - fr[c] / len(rcol)), c) for c in set(fr) | set(fj)), key=lambda t: t[0])
+            if worst[0] > band:
+                cl = "dist_later_asks"
+                return dict(res, ok=False, clause=cl, sig=dict(dim=spec_desc(spec), clause=cl),
+                            detail=dict(name=nm, declared=dict(decls)[nm], cell=repr(worst[1]), freq_asks_2_to_k=fj.get(worst[1], 0) / len(col),
+                                        freq_reference=fr[worst[1]] / len(rcol), allowed_difference=band, n=len(col), decided_by="python (statistical test, level other)"))
+    # the reference sample itself against the declarations (support clauses of the oracle)
+    for nm in names:
+        col = [r[nm] for r in ref if active(nm, r)]
+        code = m.call(F_OKSUPPORT, [specs[nm], [enc_atom(v, toks, create=False) for v in col]])
+        if code != 0:
+            cl = SUPPORT_CLAUSE.get(code, str(code)) + "@reference"
+            return dict(res, ok=False, clause=cl, sig=dict(clause=cl), detail=dict(name=nm, declared=dict(decls)[nm]))
+    if bad:
+        return dict(res, ok=False, **bad)
+    res["desc"].append("shift_bound<=%.2f" % (((k - 1) * sum_p2) / (1 - (k - 1) * pmax) ** 2))
+    return res
+
+
+def gen_ask_sequence(count, nseeds):
+    def gen(rng, tier):
+        for i in range(count * (2 if tier == "search" else 1)):
+            kind = ["conditional", "flat_log", "conditional_discrete_child", "flat_log_small", "flat_uniform", "flat_with_real"][i % 6]
+            case = dict(surrogate=["RF", "DUMMY", "ET", "GP"][i % 4], k=rng.choice([4, 5, 6]), nseeds=nseeds, tell=i % 2 == 0, n_points=rng.choice([150, 250]), seed=rng.randint(0, 2 ** 30), kind=kind, nref=20000 if tier == "thorough" else 8000)
+            if kind == "conditional":  # the inactive branch collapses onto few points
+                cats = rng.sample(["linear", "tree", "knn"], rng.choice([2, 2, 3]))
+                case["decls"] = [["model", dict(k="list", v=cats)], ["lr", dict(k="tuple", v=[0.001, 1.0] + (["log-uniform"] if rng.random() < 0.5 else []))],
+                                 ["depth", dict(k="tuple", v=[1, rng.choice([8, 12, 20])])]]
+                case["conditions"] = [["lr", "model", cats[0]]]
+            elif kind == "conditional_discrete_child":
+                case["decls"] = [["z_kind", dict(k="list", v=["a", "b"])], ["a_units", dict(k="tuple", v=[1, rng.choice([64, 256]), "log-uniform"])],
+                                 ["width", dict(k="tuple", v=[0.0, 1.0])], ["act", dict(k="list", v=["relu", "tanh", "elu"])]]
+                case["conditions"] = [["width", "z_kind", "a"], ["a_units", "z_kind", "b"]]
+            elif kind == "flat_log":  # purely discrete, non-uniform: the likely points are repeated in every batch of candidates
+                case["decls"] = [["units", dict(k="tuple", v=[1, rng.choice([1000, 4096]), "log-uniform"])], ["act", dict(k="list", v=rng.sample(["relu", "tanh", "elu"], rng.choice([2, 3])))]]
+            elif kind == "flat_log_small":
+                case["decls"] = [["units", dict(k="tuple", v=[1, rng.choice([64, 100]), "log-uniform"])], ["layers", dict(k="tuple", v=[1, rng.choice([6, 10])])], ["bn", dict(k="list", v=[True, False])]]
+            elif kind == "flat_uniform":
+                case["decls"] = [["a", dict(k="tuple", v=[0, rng.choice([5, 9])])], ["c", dict(k="list", v=["x", "y", "z"])], ["o", dict(k="list", v=[1, 2, 4, 8])]]
+            else:
+                case["decls"] = [["units", dict(k="tuple", v=[1, 100, "log-uniform"])], ["act", dict(k="list", v=["relu", "tanh"])], ["lr", dict(k="tuple", v=[1e-4, 1.0, "log-uniform"])]]
+            yield case
+    return gen
+
+
+# ------------------------------------------------------------------------------------------------------------------ the de-duplication mechanism itself
+def check_filter(case):
+    """Optimizer._filter_duplicated (the mechanism every random ask goes through) against the model's filter_dup: functional
+    correspondence on histories and batches of points of a small discrete space."""
+    from deephyper.skopt.optimizer import Optimizer
+
+    res = dict(ok=True, kind="corr", clause="", nontrivial=True, sig={}, desc=["hist=%d" % min(len(case["hist"]), 9), "batch=%d" % min(len(case["batch"]) // 10 * 10, 90)])
+    opt = Optimizer([(0, 9), ["x", "y", "z"]], base_estimator="dummy", n_initial_points=5, random_state=0)
+    if not hasattr(opt, "_filter_duplicated") or not hasattr(opt, "sampled"):
+        return dict(res, nontrivial=False, desc=["mechanism_not_found"])
+    pt = lambda t: [t // 3, "xyz"[t % 3]]
+    tok = lambda x: int(x[0]) * 3 + "xyz".index(x[1])
+    opt.sampled = [pt(t) for t in case["hist"]]
+    got = [tok(x) for x in opt._filter_duplicated([pt(t) for t in case["batch"]])]
+    want = model().call(F_FILTERDUP, [case["hist"], case["batch"]])
+    if got != want:
+        return dict(res, ok=False, clause="filter_duplicated", detail=dict(hist=case["hist"], batch=case["batch"], impl=got, model=want))
+    return res
+
+
+def gen_filter(count):
+    def gen(rng, tier):
+        for i in range(count):
+            npts = rng.choice([3, 6, 12, 30])
+            hist = rng.sample(range(npts), rng.randint(0, min(npts, 5))) if i % 4 else []
+            batch = [rng.randrange(npts) if rng.random() < 0.8 else rng.randrange(30) for _ in range(rng.choice([1, 2, 5, 12, 40]))]
+            yield dict(hist=hist, batch=batch)
+    return gen
+
+
+def shrink_filter(case):
+    for i in range(len(case["batch"])):
+        if len(case["batch"]) > 1:
+            yield dict(case, batch=case["batch"][:i] + case["batch"][i + 1:])
+    for i in range(len(case["hist"])):
+        yield dict(case, hist=case["hist"][:i] + case["hist"][i + 1:])
+
+
 # ------------------------------------------------------------------------------------------------------------------ generators
 NAME_POOL = ["zeta", "alpha", "Beta", "m1", "_u", "x10", "x9", "lr", "batch_size", "units", "Act", "dropout", "k", "A", "b", "momentum", "0th", "z_last"]
 STR_POOL = ["relu", "tanh", "sigmoid", "a", "b", "c", "adam", "sgd", "x", "y", "uniform", "log-uniform", "", "Z"]
@@ -1196,6 +1384,8 @@ def gen_sampling(paths, per_path, n_draws):
             for i in range(k):
                 decls = sampling_decls(rng, "all" if i % 6 == 0 and not (path == "cbo_ask" and i % 5 == 2) else "some")
                 case = dict(decls=decls, surrogate=surs[i % len(surs)], path=path, seed=rng.randint(0, 2 ** 31 - 1), n=n_draws)
+                if case["surrogate"] == "GP" and not any(nm in ("i_log", "i_log_small") for nm, _ in decls):
+                    decls.append(["i_log", dict(k="tuple", v=[rng.choice([1, 2]), rng.choice([100, 1000]), "log-uniform"])])  # the normalizing family with every kind of prior
                 if path == "cbo_ask":
                     case["filter_duplicated"] = i % 2 == 1
                     case["one_by_one"] = i % 5 == 2      # 4000 single ask() calls (the _ask path), 8 candidates each, no de-duplication
@@ -1266,9 +1456,11 @@ def streams(tier):
     n = 16000 if th else 4000
     return [
         Stream("conversion", gen_conversion(30000 if th else 2500), check_conversion, shrink_conversion, timeout=60),
-        Stream("extreme_quantiles", gen_extremes(400 if th else 48), check_extremes, shrink_sampling, timeout=60),
+        Stream("extreme_quantiles", gen_extremes(400 if th else 32), check_extremes, shrink_sampling, timeout=60),
         Stream("normalized_quantile", gen_quantile(3000 if th else 300), check_quantile, None, timeout=30),
-        Stream("space_rvs", gen_sampling(["space_rvs", "space_rvs_cs", "dim_rvs"], 50 if th else 11, n), check_sampling, shrink_sampling, timeout=300),
-        Stream("optimizer_ask", gen_sampling(["cbo_ask"], 80 if th else 25, n), check_sampling, shrink_sampling, timeout=300),
-        Stream("random_search", gen_sampling(["random_search"], 60 if th else 12, n), check_sampling, shrink_sampling, timeout=300),
+        Stream("space_rvs", gen_sampling(["space_rvs", "space_rvs_cs", "dim_rvs"], 50 if th else 8, n), check_sampling, shrink_sampling, timeout=300),
+        Stream("optimizer_ask", gen_sampling(["cbo_ask"], 80 if th else 18, n), check_sampling, shrink_sampling, timeout=300),
+        Stream("ask_sequence", gen_ask_sequence(24 if th else 6, 300 if th else 130), check_ask_sequence, None, timeout=600),
+        Stream("filter_duplicated", gen_filter(3000 if th else 400), check_filter, shrink_filter, timeout=30),
+        Stream("random_search", gen_sampling(["random_search"], 60 if th else 9, n), check_sampling, shrink_sampling, timeout=300),
     ]
